@@ -14,6 +14,12 @@ def _classify(cs_text):
     return "other"
 
 
+def _posts(s):
+    """the `ensure` calls as made (form + printed items) when they cannot be reconstructed from the Solver alone"""
+    p = getattr(s, "_verif_posts", None)
+    return p if p is not None and sum(len(t) for _, t in p) != len(s.constraints) else None
+
+
 def _one(rng, incremental=False):
     """Build a session through the real DSL, solve with the real z3 backend, compare with brute force.
     Returns None or (kind, detail)."""
@@ -42,15 +48,15 @@ def _one(rng, incremental=False):
             r = s.find_answer("z3")
         except Exception as e:
             return ("exception:" + _classify(cs), {"constraints": cs, "decls": [exprio.pdecl(v) for v in s.variables],
-                                                  "exception": core.err_name(e), "step": step})
+                                                  "exception": core.err_name(e), "step": step, "posts": _posts(s)})
         if r != (len(models) > 0):
             return ("verdict:" + _classify(cs), {"constraints": cs, "decls": [exprio.pdecl(v) for v in s.variables],
-                                                "find_answer": r, "models": len(models), "step": step})
+                                                "find_answer": r, "models": len(models), "step": step, "posts": _posts(s)})
         if r:
             asg = {(f"b{v.id}" if isinstance(v, BoolVar) else f"i{v.id}"): v.sol for v in s.variables}
             if asg not in models:
                 return ("sol-not-a-model:" + _classify(cs), {"constraints": cs, "decls": [exprio.pdecl(v) for v in s.variables],
-                                                           "sol": asg, "step": step})
+                                                           "sol": asg, "step": step, "posts": _posts(s)})
     return None
 
 
@@ -309,8 +315,12 @@ def search(ctx, why):
 
 def replay(ctx, data):
     from cspuz.expr import BoolVar
-    s = exprio.build_session(data["decls"], data["constraints"])
-    models = dslgen.brute_models(s)
+    s = exprio.build_session(data["decls"], data["constraints"], posts=data.get("posts"))
+    if data.get("posts"):
+        meant = exprio.build_session(data["decls"], [t for _, ts in data["posts"] for t in ts])
+        models = dslgen.brute_models(meant)
+    else:
+        models = dslgen.brute_models(s)
     try:
         r = s.find_answer("z3")
     except Exception as e:
